@@ -138,9 +138,11 @@ RemoveKey(L0, k) ==
 -----------------------------------------------------------------------------
 \* Properties of an index value
 
-RECURSIVE SumDsz(_, _), SumLsz(_, _)
-SumDsz(L, s) == IF s = <<>> THEN 0 ELSE Round(L.elems[Head(s)].dsz) + SumDsz(L, Tail(s))
-SumLsz(L, s) == IF s = <<>> THEN 0 ELSE Round(L.elems[Head(s)].lsz) + SumLsz(L, Tail(s))
+RECURSIVE SumDszI(_, _, _), SumLszI(_, _, _)
+SumDszI(L, s, i) == IF i = 0 THEN 0 ELSE Round(L.elems[s[i]].dsz) + SumDszI(L, s, i - 1)
+SumLszI(L, s, i) == IF i = 0 THEN 0 ELSE Round(L.elems[s[i]].lsz) + SumLszI(L, s, i - 1)
+SumDsz(L, s) == SumDszI(L, s, Len(s))
+SumLsz(L, s) == SumLszI(L, s, Len(s))
 
 \* C03: accounted size = entries (rounded) + reservations
 AccountingExact(L) == L.cur = L.resv + SumDsz(L, L.ll)
@@ -150,10 +152,9 @@ CountExact(L)      == Cardinality(DOMAIN L.cmap) = Len(L.ll)
 
 \* the map and the list describe the same set of elements
 MapListConsistent(L) ==
-  /\ \A k \in DOMAIN L.cmap : L.cmap[k] \in Range(L.ll) /\ L.elems[L.cmap[k]].key = k
-  /\ \A i \in DOMAIN L.ll : /\ L.elems[L.ll[i]].key \in DOMAIN L.cmap
-                            /\ L.cmap[L.elems[L.ll[i]].key] = L.ll[i]
-  /\ \A i, j \in DOMAIN L.ll : i # j => L.ll[i] # L.ll[j]
+  /\ {L.cmap[k] : k \in DOMAIN L.cmap} = Range(L.ll)        \* same set of elements
+  /\ \A k \in DOMAIN L.cmap : L.elems[L.cmap[k]].key = k    \* each indexed under its own key
+  /\ Cardinality(Range(L.ll)) = Len(L.ll)                   \* no element twice in the list
 
 KeysInOrder(L) == [i \in DOMAIN L.ll |-> L.elems[L.ll[i]].key]
 =============================================================================
